@@ -736,10 +736,15 @@ theorem scope_after_others (w : HeadInfo) (b : Nat) (hb : w.act = some b) : ∀ 
       | some a =>
         have hab : a ≠ b := by intro e; apply hh; rw [ha, e]
         simp only [cowinEffect, hb, ha, hab, if_false]
-        rw [scopeOf_del_ne hab, scopeOf_incr_self]
-        cases scopeOf b t with
-        | none => rfl
-        | some n => simp [cowinRefs, filter_cons, ha]; omega
+        cases ho : h.owns with
+        | true =>
+          simp only [if_true]
+          rw [scopeOf_del_ne hab, scopeOf_incr_self]
+          cases scopeOf b t with
+          | none => rfl
+          | some n => simp [cowinRefs, filter_cons, ha, ho]; omega
+        | false =>
+          simp [cowinRefs, filter_cons, ha, ho]
     | caught =>
       simp only [applyFates]
       rw [scope_after_others w b hb L _ hd']
@@ -772,15 +777,15 @@ theorem group_scope_count (one : Int) (g : List HeadInfo) (c : Nat) (t : ActTbl)
     exact hd h (mem_ordered.1 this.1) (by simpa using this.2)
 
 theorem cowinRefs_eq_count : ∀ (fs : List (HeadInfo × Fate)),
-    (∀ p ∈ fs, p.2 = Fate.cowin → p.1.act.isSome = true ∧ p.1.nrefs = 1) →
+    (∀ p ∈ fs, p.2 = Fate.cowin → p.1.act.isSome = true ∧ p.1.nrefs = 1 ∧ p.1.owns = true) →
     cowinRefs fs = (fs.filter (fun p => p.2 == Fate.cowin)).length
   | [], _ => rfl
   | p :: fs, h => by
     have ih := cowinRefs_eq_count fs (fun q hq => h q (mem_cons_of_mem _ hq))
     unfold cowinRefs at ih ⊢
     by_cases e : p.2 = Fate.cowin
-    · obtain ⟨h1, h2⟩ := h p mem_cons_self e
-      simp only [filter_cons, e, beq_self_eq_true, h1, Bool.and_self, if_true, map_cons, sum_cons, length_cons, h2, ih]
+    · obtain ⟨h1, h2, h3⟩ := h p mem_cons_self e
+      simp only [filter_cons, e, beq_self_eq_true, h1, h3, Bool.and_self, if_true, map_cons, sum_cons, length_cons, h2, ih]
       omega
     · have hb : (p.2 == Fate.cowin) = false := by simp [e]
       simp only [filter_cons, hb, Bool.false_and, Bool.false_eq_true, if_false]
@@ -844,7 +849,9 @@ theorem cowinEffect_frame (w h : HeadInfo) (b : Nat) (hw : w.act ≠ some b) (hh
       simp only
       split
       · rfl
-      · rw [scopeOf_del_ne h2, scopeOf_incr_ne _ h1]
+      · split
+        · rw [scopeOf_del_ne h2, scopeOf_incr_ne _ h1]
+        · rfl
 
 /-- fates of heads that do not hold action `b`, processed under a current winner that does not hold it either,
     leave `b` alone -/
